@@ -636,7 +636,15 @@ def run(case, rec):
             est, data = vd.Chain([("r", vd.BlockReduce(np.mean, spacing=2.0)), ("t", vd.Trend(1))]), d
         else:
             est, data = vd.Vector([vd.Trend(1), vd.KNeighbors(k=1)]), (d, -2.0 * d + e)
-        if raised(call(rec, est.fit, (e, n), data)):
+        # cases with a projection fit on 2-D arrays that are NOT a meshgrid (scattered points stored as a 7 x 1 / 1 x 7 table): region_ must
+        # still be the bounding box of all points (round 9, seed C05-18: a bounding box read off the first row and column)
+        if case["proj"] != "none":
+            shp_ = (7, 1) if "shape" in case["spec"] else (1, 7)
+            r2_ = lambda a_: tuple(x_.reshape(shp_) for x_ in a_) if isinstance(a_, tuple) else a_.reshape(shp_)
+            fit_ = call(rec, est.fit, (e.reshape(shp_), n.reshape(shp_)), r2_(data))
+        else:
+            fit_ = call(rec, est.fit, (e, n), data)
+        if raised(fit_):
             return rec.check(False, "fit raised")
         kw = dict(case["spec"])
         kw = {k: (tuple(v) if isinstance(v, list) else v) for k, v in kw.items()}
